@@ -1042,12 +1042,14 @@ _has_traits_trait(has_traits_object *obj, PyObject *args)
                 delegate, trait->delegate_name);
         }
         if (temp_delegate == NULL) {
+            Py_DECREF(trait);
             break;
         }
         Py_DECREF(delegate);
         delegate = temp_delegate;
 
         if (!PyHasTraits_Check(delegate)) {
+            Py_DECREF(trait);
             bad_delegate_error2(obj, name);
             break;
         }
